@@ -344,7 +344,34 @@ pub fn edwards_point() -> BoxedStrategy<(u8, B32)> {
         1 => Just((3u8, Aff::IDENTITY.compress())),
         4 => u256_interesting().prop_map(|y| (4u8, point_from_y(&y).compress())),
         2 => u256_interesting().prop_map(|y| (5u8, point_from_y(&y).mul8().compress())),
+        // x chosen, y solved from the curve equation (y^2 = (1 + x^2) / (1 - d x^2)): small / sparse / near-p
+        // x-coordinates, both signs. Encodings only fix y, so a generator working on encodings always gets a
+        // pseudo-random x; representation bugs that need a special x (e.g. -x stored with its top limb above
+        // 2^51: seeded changes C11b, C15f, C03h) need this direction.
+        3 => (u256_interesting(), any::<bool>(), any::<bool>()).prop_map(|(xb, neg, clear)| (6u8, point_from_x(&xb, neg, clear).compress())),
     ].boxed()
+}
+
+/// the point with the first x >= the given value (mod p) that lies on the curve, or its negative; `small`
+/// clears the high 48 bits of x first (x below 2^208)
+pub fn point_from_x(xb: &B32, neg: bool, small: bool) -> Aff {
+    let mut b = *xb;
+    b[31] &= 0x7f;
+    if small {
+        for i in 26..32 { b[i] = 0; }
+    }
+    let mut x = Fp::from_bytes(&b);
+    loop {
+        let x2 = x.sq();
+        let den = Fp::ONE.sub(&fp::d().mul(&x2));
+        if !den.is_zero() {
+            if let Some(y) = Fp::ONE.add(&x2).div(&den).sqrt() {
+                let p = Aff { x, y };
+                return if neg { p.neg() } else { p };
+            }
+        }
+        x = x.add(&Fp::ONE);
+    }
 }
 
 /// the 2 x 19 non-canonical y encodings (y in [p, 2^255)), those on the curve and those not
